@@ -149,7 +149,8 @@ def run(tier: str) -> int:
     if not thorough:
         fams = [
             {"Family": "core2", "MaxLen": 3, "Starts": "all", "Sample": 120, "workers": 2},
-            {"Family": "trivia3", "MaxLen": 3, "Starts": "all", "Sample": 120, "workers": 3},
+            {"Family": "trivia3", "MaxLen": 3, "Starts": "all", "Sample": 350, "workers": 3},
+            {"Family": "trivia2", "MaxLen": 4, "Starts": "zero", "Sample": 150, "workers": 3},
             {"Family": "mods", "MaxLen": 4, "Starts": "zero", "Sample": 500, "workers": 3},
             {"Family": "tags", "MaxLen": 3, "Starts": "all", "Sample": 120, "workers": 2},
             {"Family": "stack", "MaxLen": 3, "Starts": "all", "Sample": 250, "workers": 3},
